@@ -55,11 +55,19 @@ def run(ctx):
         "realDomainSet is a Bloom filter sized for 2048 names at p=0.001 and cleared when 2048 names have been added (fix 08fa06d): "
         "modelled as an exact set with the same counter and clear; the residual design false-positive rate (<= 0.001 within capacity) "
         "is the one approximation; the constructor parameters are checked in the source text, the clear threshold by the `sat` episode",
-        "the dial-target table is checked for TCP dials (routeDial). UDP (handlePkt) deliberately always sends realDst.String() to the "
-        "node (udp.go: 'Keep UDP target pinned to original destination IP'); chooseProxyDialer is still used there for dialer selection "
-        "and the re-route by name. Not driven by this check.",
-        "c.Route(src,dst,name,…) is an oracle `route name` (routing itself is C01/C07); dialer selection inside the group is C15",
-        "testing/synctest virtual time; the asynchronous probe is awaited with synctest.Wait, i.e. compared at quiescence",
+        "the dial-target table is checked for TCP dials (routeDial, incl. retry after ENETUNREACH and give-up after ECONNREFUSED/timeout). "
+        "UDP (handlePkt, not driven) deliberately always sends realDst.String() to the node (udp.go: 'Keep UDP target pinned to original "
+        "destination IP'); the decision UDP takes from chooseProxyDialer(Network:\"udp\") — outbound after the re-route by name, strict "
+        "family flag — is driven (`pick` op). handleConn -> routeDial wiring is not driven by C18",
+        "c.Route(src,dst,name,metadata) is an oracle `route name`: the harness calls the real Route with the name and metadata it expects "
+        "(routing itself is C01/C07), so 'routed again using that name' is tied only where another name / dropped metadata routes differently; "
+        "dialer selection inside the group is C15",
+        "dial_mode wiring: text -> config_parser.Parse -> config.New -> consts.ParseDialMode is executed (`cfg`); the hop into "
+        "ControlPlane.dialMode (newControlPlaneWithContextOptions, not executed) is a source-text check (parsed variable stored, not re-assigned)",
+        "tunables read from the running code and passed to the driver: realDomainNegativeCacheTTL, minFirefoxCacheTtl, realDomainProbeTimeout; "
+        "literal in model and harness: filter capacity 2048 / 0.001, one-year TTL clamp",
+        "testing/synctest virtual time; the asynchronous probe is awaited with synctest.Wait, i.e. compared at quiescence (plus: a second call "
+        "while the probe is blocked in the resolver, the real probe-context timeout, one cache-janitor run whose evicted keys are observed)",
     ]
     ctx.prove(["DaeVerif.C18.Props"], ["DaeVerif.C18.Props"], ["DaeVerif/C18/*.lean"], extra_targets=["c18drv"])
     ctx.required_theorems(REQUIRED)
@@ -172,7 +180,8 @@ def run(ctx):
     ctx.assumptions = [
         "sniffed strings, destinations, outbounds, DNS/probe histories are generated (seeded); names fed to "
         "NormalizeDomain / CanonicalName / the DNS cache are ASCII (bytes >= 0x80 only on the pure string paths)",
-        "single-threaded histories: concurrency of the caches (sync.Map, RWMutex, singleflight) is not explored",
+        "histories are sequential: interleavings of the caches (sync.Map, RWMutex, singleflight) finer than the driven ones are not explored",
+        "DNS questions are class IN; production key shapes only (\"\" or questionCacheKey|scope built by the real responseCacheKey)",
     ]
     if needs_update and not ctx.violations:
         ctx.say("CHECK-NEEDS-UPDATE (source-text checks of checks/c18.py do not recognise the code any more):", "; ".join(needs_update))
